@@ -19,10 +19,16 @@ from .. import disthist as dh
 PRES = [('uint8', 0, 1.0), ('int16', -2, 1.0), ('float32', -2, 0.25), ('float64', 0, 0.5), ('int8', -3, 1.0), ('uint16', 0, 1.0)]
 
 
-def run_obj(cls, precision, t, d):
+def run_obj(cls, precision, t, d, split=0):
+    """split: 0 = one update; k > 0 = two updates, the first with all but the last k traces (so the second is the shorter one when k is small);
+    the statistic is a function of the whole set, whatever the batches were"""
     import scared
     o = getattr(scared, cls)(precision=precision)
-    o.update(t, d)
+    if split and 0 < split < len(t):
+        o.update(t[:-split], d[:-split])
+        o.update(t[-split:], d[-split:])
+    else:
+        o.update(t, d)
     first = np.asarray(o.compute())
     again = np.asarray(o.compute())              # asking again must give the same statistic (no state consumed by compute)
     if first.shape != again.shape or not np.array_equal(first, again, equal_nan=True):
@@ -64,11 +70,19 @@ def run(chk):
         want, mag = st.pearson_expect(e['cert'], ps)
         for cls in ('CPADistinguisher', 'CPAAlternativeDistinguisher'):
             for prec in ('float32', 'float64'):
-                got = run_obj(cls, prec, t, d)
+                got = run_obj(cls, prec, t, d, split=(i // 2) % 3)
                 if got.shape != (1, 1):
                     chk.violation(f'{cls}:result layout', {'property': 'C03', 'ps': ps, 'shape': got.shape}, f'{cls}: shape {got.shape}')
                     continue
-                check_entry(chk, 'Pearson coefficient', cls, prec, got[0, 0], want, mag, {'ps': ps, 'trace_dtype': dt, 'data_dtype': ddt, 'key': i})
+                check_entry(chk, 'Pearson coefficient', cls, prec, got[0, 0], want, mag, {'ps': ps, 'trace_dtype': dt, 'data_dtype': ddt, 'key': i, 'split': (i // 2) % 3})
+            if i % 4 == 0:
+                # the same observations riding on a large offset with a small swing (ADC codes around 12000): Pearson is shift-invariant; in
+                # float64 every sum is still an exact integer, so the definition is reached to the stated envelope (float32 is not asked: its
+                # accumulators cannot hold these squares)
+                t2 = (np.array([[p[0]] for p in ps], dtype='int64') + 12000).astype('int16')
+                want2, mag2 = st.pearson_expect(e['cert'], [(p[0] + 12000, p[1]) for p in ps])
+                got = run_obj(cls, 'float64', t2, d)
+                check_entry(chk, 'Pearson coefficient (large offset)', cls, 'float64', got[0, 0], want2, mag2, {'ps': ps, 'trace_dtype': 'int16', 'offset': 12000, 'data_dtype': ddt, 'key': ('off', i)})
         if i % 997 == 0:
             chk.sample({'observations': ps, 'pearson_certificate_num_dx_dy': e['cert']})
         chk.traces_validated += 1
@@ -81,7 +95,7 @@ def run(chk):
         want, mag = st.dom_expect(e['cert'], sc)
         mag += abs(sh) * sc * 2
         for prec in ('float32', 'float64'):
-            got = run_obj('DPADistinguisher', prec, t, d)
+            got = run_obj('DPADistinguisher', prec, t, d, split=(i // 2) % 3)
             check_entry(chk, 'difference of class means', 'DPADistinguisher', prec, got[0, 0], want, mag, {'ps': ps, 'trace_dtype': dt, 'key': i})
         if i % 397 == 0:
             chk.sample({'observations': ps, 'dom_certificate_sum1_n1_sum0_n0': e['cert']})
@@ -156,13 +170,13 @@ def replay(chk, path):
     cls, prec = rp['cls'], rp['precision']
     if 'ps' in rp:
         ps = rp['ps']
-        t = np.array([[p[0]] for p in ps]).astype(rp.get('trace_dtype', 'int16'))
+        t = (np.array([[p[0]] for p in ps]) + rp.get('offset', 0)).astype(rp.get('trace_dtype', 'int16'))
         d = np.array([[p[1]] for p in ps]).astype('uint8')
     else:
         c, rows = rp['case']['c'], rp['case']['rows']
         t = np.array([r['t'] for r in rows]).astype('int16')
         d = np.array([r['d'] for r in rows], dtype='uint8').reshape((len(rows),) + tuple(c['wshape']))
-    got = run_obj(cls, prec, t, d)
+    got = run_obj(cls, prec, t, d, split=rp.get('split', 0))
     print('result now:', got.tolist(), 'expected at record time:', rp.get('expected'))
     e = rp.get('entry')
     g = got.reshape(-1)[e[0] * got.shape[-1] + e[1]] if e else got.reshape(-1)[0]
